@@ -29,13 +29,14 @@ WRAPS = [
     "pthread_create", "pthread_join", "pthread_exit", "pthread_cancel", "pthread_setcancelstate",
     "pthread_rwlock_rdlock", "pthread_rwlock_wrlock", "pthread_rwlock_unlock",
     "clock_gettime", "sleep", "lrtr_dbg", "free",
+    "rtr_sync", "rtr_wait_for_sync",
 ]
 
 # memory-safety relevant UBSan checks only: the properties speak of invalid memory accesses and
 # assertion failures, not of every C undefined behaviour (DESIGN §8 C04).
 SAN = {
     "asan": {
-        "lib": ["-fsanitize=address,bounds,null,vla-bound", "-fno-sanitize-recover=all"],
+        "lib": ["-fsanitize=address,bounds,null", "-fno-sanitize-recover=all"],
         "harness": ["-fsanitize=address"],
         "link": ["-fsanitize=address,undefined"],
     },
